@@ -63,7 +63,7 @@ class View:
 
 def patch_ctor_contract(eng, call):
     """Patch(spec) as proved in t_patch: name / values / metadata read from spec['metadata']"""
-    ps = call.args[0]
+    ps = call.arg(0, "spec")
     p = PatchOf(ps)
     meta = item_of(ps, eng.box("metadata"))
     nameobj = item_of(meta, eng.box("name"))
@@ -179,7 +179,7 @@ def t_init(T):
             view = r.value[1]
             T.ob_path(eng, f"{key}#post.metadata{sfx}", r, eng.veq(o.attrs.get("_metadata"), item_of(view.spec, eng.box("metadata"))), kind="forwarding")
             vc = calls_to(r.path, "schema/validator.py::validate")
-            okv = len(vc) == 1 and vc[0].args and vc[0].args[0] is view.spec or (len(vc) == 1 and eng.veq(vc[0].args[0], view.spec) is not False)
+            okv = len(vc) == 1 and (vc[0].arg(0, "spec", None) is view.spec or eng.veq(vc[0].arg(0, "spec", None), view.spec) is not False)
             (T.ok if okv else T.fail)(f"{key}#post.validated{sfx}", *([] if okv else ["spec not validated against the schema"]), kind="forwarding")
     for kname, cnt in kinds.items():
         (T.ok if cnt else T.fail)(f"{key}#paths.{kname}-exists", *([] if cnt else ["no such path"]), kind="raises")
@@ -309,7 +309,7 @@ def t_verify(T):
                                                                          DIG(spec, item_of(e, eng.box(0))) == item_of(e, eng.box(1)))))]
 
     def digest_contract(eng, call):
-        return DIG(call.args[0], call.kwargs.get("algorithm", call.args[1] if len(call.args) > 1 else eng.box("sha256")))
+        return DIG(call.arg(0, "obj"), call.arg(1, "algorithm", eng.box("sha256")))
     pol = {"utils.py::digest": digest_contract, ("loop", key, 0): LoopSpec(f"{key}#inv", inv, lambda eng, env: None),
            "inline": [f"{PS}::PatchSet.digests", f"{PS}::PatchSet.metadata"]}
     eng = T.engine(pol)
@@ -348,11 +348,11 @@ def t_verify(T):
             T.ob_path(eng, f"{key}#post.returns-only-if-every-digest-matches{sfx}", r,
                       z3.Implies(z3.And(0 <= j, j < n), DIG(spec, item_of(e, eng.box(0))) == item_of(e, eng.box(1))))
             for c in calls_to(r.path, "utils.py::digest"):
-                T.ob_path(eng, f"{key}#fwd.digest-of-the-given-workspace{sfx}", r, eng.veq(c.args[0], spec), kind="forwarding")
+                T.ob_path(eng, f"{key}#fwd.digest-of-the-given-workspace{sfx}", r, eng.veq(c.arg(0, "obj", None), spec), kind="forwarding")
         else:
             seen.add("cut")
             for c in calls_to(r.path, "utils.py::digest"):
-                T.ob_path(eng, f"{key}#fwd.digest-of-the-given-workspace{sfx}", r, eng.veq(c.args[0], spec), kind="forwarding")
+                T.ob_path(eng, f"{key}#fwd.digest-of-the-given-workspace{sfx}", r, eng.veq(c.arg(0, "obj", None), spec), kind="forwarding")
     for s_ in ("raise", "return", "cut"):
         (T.ok if s_ in seen else T.fail)(f"{key}#paths.{s_}-exists", *([] if s_ in seen else ["no such path"]), kind="raises")
 
@@ -365,8 +365,8 @@ def t_verify_history(T):
     state = {"version": 0}
 
     def digest_contract(eng, call):
-        alg = call.kwargs.get("algorithm", call.args[1] if len(call.args) > 1 else "sha256")
-        return DIGV(call.args[0], eng.box(alg), z3.IntVal(state["version"]))
+        alg = call.arg(1, "algorithm", "sha256")
+        return DIGV(call.arg(0, "obj"), eng.box(alg), z3.IntVal(state["version"]))
     eng = T.engine({"utils.py::digest": digest_contract, "schema/validator.py::validate": lambda e, c: None,
                     "inline": [f"{PS}::PatchSet."], f"{PS}::Patch": patch_ctor_contract})
     cls = eng.module(PS).get("PatchSet")
